@@ -105,9 +105,22 @@ def lineInterpolatePoint (a b : Pt) (f : Rat) : Option Pt :=
   if 0 ≤ f ∧ f ≤ 1 then some (lerp a b f)
   else if f < 0 then some (lerp a b 0) else some (lerp a b 1)
 
-/-- the f64 quotient `(fractional_length - cum_length) / length` as the deprecated code meets
-it: `0/0` is NaN (→ `None`), `±x/0` is ±∞ (→ clamped), else the rational quotient. -/
+/-- the `for segment in self.lines()` loop of the deprecated code (after the `fix:` commit): the
+first segment with `cum_length + length >= fractional_length`; a zero-length segment yields its
+start (before the fix: `0/0` = NaN, hence `None`), otherwise the fraction
+`(fractional_length - cum_length) / length` of the segment. -/
 def lipGo (len : Len) (fl : Rat) : List (Pt × Pt) → Rat → Option Pt
+  | [], _ => none
+  | (a, b) :: rest, cum =>
+    let l := len a b
+    if cum + l ≥ fl then
+      if l = 0 then lineInterpolatePoint a b 0
+      else lineInterpolatePoint a b ((fl - cum) / l)
+    else lipGo len fl rest (cum + l)
+
+/-- The pinned (pre-fix) loop, kept for the record: on a zero-length segment the quotient is
+`0/0` = NaN (→ `None`) or `±x/0` = ±∞ (→ clamped). -/
+def lipGoPinned (len : Len) (fl : Rat) : List (Pt × Pt) → Rat → Option Pt
   | [], _ => none
   | (a, b) :: rest, cum =>
     let l := len a b
@@ -116,12 +129,22 @@ def lipGo (len : Len) (fl : Rat) : List (Pt × Pt) → Rat → Option Pt
         (if fl - cum = 0 then none
          else if fl - cum < 0 then lineInterpolatePoint a b (-1) else lineInterpolatePoint a b 2)
       else lineInterpolatePoint a b ((fl - cum) / l)
-    else lipGo len fl rest (cum + l)
+    else lipGoPinned len fl rest (cum + l)
 
-/-- `LineString::line_interpolate_point`. -/
+/-- `LineString::line_interpolate_point` (after the `fix:` commit: a single coordinate is
+returned for every fraction; before it the loop found no segment and the result was `None`). -/
 def lsLineInterpolatePoint (len : Len) (cs : List Pt) (f : Rat) : Option Pt :=
   let f' := if 0 ≤ f ∧ f ≤ 1 then f else if f < 0 then 0 else 1
-  lipGo len (lsLength len cs * f') (segs cs) 0
+  match lipGo len (lsLength len cs * f') (segs cs) 0 with
+  | some p => some p
+  | none =>
+    match cs with
+    | [a] => lineInterpolatePoint a a 0
+    | _ => none
+
+def lsLineInterpolatePointPinned (len : Len) (cs : List Pt) (f : Rat) : Option Pt :=
+  let f' := if 0 ≤ f ∧ f ≤ 1 then f else if f < 0 then 0 else 1
+  lipGoPinned len (lsLength len cs * f') (segs cs) 0
 
 /-! ### `LineLocatePoint` -/
 
